@@ -184,7 +184,8 @@ EXPORT errno_t _mbsrtowcs_s_chk(size_t *restrict retvalp,
     orig_dest = dest;
     memcpy(&orig_ps, ps, sizeof(orig_ps));
 
-    *retvalp = mbsrtowcs(dest, srcp, len, ps);
+    /* the C library may store up to len elements: never more than dmax */
+    *retvalp = mbsrtowcs(dest, srcp, (dest && len > dmax) ? dmax : len, ps);
 
     if (likely(*retvalp < dmax)) {
         if (dest) {
